@@ -994,7 +994,8 @@ pub struct VPeer {
     /// another hash, 3 signed peers with one bad signature among good ones, 4 item signed for another
     /// salt, 5 bit-flipped value, 6 all-bad signed peers, 7 the genuine (key, seq, signature) of an
     /// item some honest peer holds, with another value, 8 the genuine item of the key under a salt that
-    /// differs from the requested one in a non-UTF-8 byte
+    /// differs from the requested one in a non-UTF-8 byte, 9 answers every kind of lookup request with a
+    /// mutable item signed by its own key
     pub forge: u8,
     /// added to the network latency for this peer's replies
     pub extra_delay: u64,
@@ -1063,6 +1064,21 @@ impl VNet {
         let me = self.peers[i].id;
         let token: Box<[u8]> = Self::token_of(&self.peers[i]).into_boxed_slice();
         let forge = self.peers[i].forge;
+        if forge == 9 {
+            // whatever the lookup asks, answer with a mutable item validly signed by the responder's own
+            // key (no salt), plus honest closer nodes
+            let t = match &req.request_type {
+                RequestTypeSpecific::FindNode(a) => Some(a.target),
+                RequestTypeSpecific::GetPeers(a) => Some(a.info_hash),
+                RequestTypeSpecific::GetSignedPeers(a) => Some(a.info_hash),
+                RequestTypeSpecific::GetValue(a) => Some(a.target),
+                _ => None,
+            };
+            if let Some(t) = t {
+                let item = MutableItem::new(&key_from_seed(777), b"signed by the responder", 50, None);
+                return MessageType::Response(ResponseSpecific::GetMutable(GetMutableResponseArguments { responder_id: me, token, nodes: Some(nodes(self, &t)), v: item.value().to_vec().into_boxed_slice(), k: *item.key(), seq: item.seq(), sig: *item.signature() }));
+            }
+        }
         if forge != 0 {
             match &req.request_type {
                 RequestTypeSpecific::GetValue(a) => {
@@ -1875,6 +1891,82 @@ pub fn run(out: &mut Out, seed: u64, thorough: bool, replay: Option<&str>) {
         d.out.mark_distinct(fnv(format!("N{round}").as_bytes()));
         d.s.shutdown();
     }
+    // ---- C4: get_mutable joins a running lookup of ANOTHER kind on the same 20 bytes (lookups are keyed
+    //          by target), and the responders answer that lookup with a mutable item signed by their own
+    //          key (C02): nothing of that may reach the get_mutable caller
+    for first in ["find_node", "get_peers", "get_speers"] {
+        t0 += 10_000_000_000_000;
+        let mut net = VNet::new(&mut rng, 4, true);
+        for (i, p) in net.peers.iter_mut().enumerate() {
+            if i == 1 {
+                p.mode = 1; // silent: keeps the lookup running
+            } else {
+                p.forge = 9;
+            }
+        }
+        let boot = vec![net.peers[0].addr, net.peers[1].addr];
+        let mut d = Driver::new(out, rng.next(), net);
+        d.begin("c", &boot, None, rng.next() % 1_000_000 + 1, t0);
+        d.run_for(2 * SEC, 10 * MS);
+        let genuine = MutableItem::new(&key_from_seed(9), b"x", 1, Some(b"salt"));
+        let th = hex(genuine.target().as_bytes());
+        d.api(match first {
+            "find_node" => format!("find_node t={th}"),
+            "get_peers" => format!("get_peers ih={th}"),
+            _ => format!("get_speers ih={th}"),
+        });
+        d.run_for(40 * MS, 5 * MS);
+        let pk = hex(key_from_seed(9).verifying_key().as_bytes());
+        d.api(format!("get_mut k={pk} salt={} seq=none", hex(b"salt")));
+        d.run_for(60 * MS, 5 * MS);
+        d.api(format!("get_mut k={pk} salt={} seq=none", hex(b"salt")));
+        d.settle(20 * SEC, 10 * MS);
+        d.finish();
+        d.out.mark_distinct(fnv(format!("C4{first}").as_bytes()));
+        d.s.shutdown();
+    }
+    // ---- M2: a second reader joins a lookup that has already been handed the value, while the lookup is
+    //          kept running by a node that never answers (C01): it is handed the value too
+    for kind in 0..4 {
+        t0 += 10_000_000_000_000;
+        let mut net = VNet::new(&mut rng, 3, true);
+        let ih = Id::from_bytes(rng.id20()).expect("id");
+        let v = b"held by one live node".to_vec();
+        let item = MutableItem::new(&key_from_seed(9), b"held", 2, None);
+        let sa = SignedAnnounce::new(&key_from_seed(31), &ih);
+        net.peers[1].mode = 1;
+        net.peers[2].mode = 1;
+        {
+            let p = &mut net.peers[0];
+            p.peers.insert(ih, vec![SocketAddrV4::new(Ipv4Addr::new(10, 8, 8, 8), 7000)]);
+            p.speers.insert(ih, vec![(*sa.key(), sa.timestamp(), *sa.signature())]);
+            p.imm.insert(imm_target(&v), v.clone());
+            p.muts.insert(*item.target(), (item.value().to_vec(), *item.key(), item.seq(), *item.signature()));
+        }
+        let boot = vec![net.peers[0].addr, net.peers[1].addr, net.peers[2].addr];
+        let mut d = Driver::new(out, rng.next(), net);
+        d.begin("c", &boot, None, rng.next() % 1_000_000 + 1, t0);
+        d.run_for(2 * SEC, 10 * MS);
+        let call = match kind {
+            0 => format!("get_peers ih={}", hex(ih.as_bytes())),
+            1 => format!("get_speers ih={}", hex(ih.as_bytes())),
+            2 => format!("get_imm t={}", hex(imm_target(&v).as_bytes())),
+            _ => format!("get_mut k={} salt=none seq=none", hex(key_from_seed(9).verifying_key().as_bytes())),
+        };
+        let c1 = d.api(call.clone());
+        d.run_for(80 * MS, 5 * MS);
+        let c2 = d.api(call.clone());
+        d.settle(20 * SEC, 10 * MS);
+        for (c, which) in [(c1, "first"), (c2, "second")] {
+            let got = d.results(c);
+            if !got.iter().any(|r| r.contains(":item:") || r.contains(":some:")) {
+                d.out.violation("C01", "stored-item-not-yielded", format!("the {which} of two overlapping `{}` calls yielded {:?} although a live node holds the value and answered", call.split(' ').next().unwrap_or(""), got));
+            }
+        }
+        d.finish();
+        d.out.mark_distinct(fnv(format!("M2{kind}").as_bytes()));
+        d.s.shutdown();
+    }
     // ---- C': replay of a genuine (key, seq, signature) with another value, before and after the
     //          honest answer reached the lookup
     for forged_first in [false, true] {
@@ -2253,6 +2345,16 @@ pub fn run(out: &mut Out, seed: u64, thorough: bool, replay: Option<&str>) {
                 _ => format!("get_imm t={}", hex(t.as_bytes())),
             };
             d.lookup_and_check_closure(call, &t);
+        }
+        // every peer holds the item with seq 2; asked for "more recent than 5" they all answer
+        // no-more-recent-value, and the nodes listed in those answers count like any others
+        {
+            let item = MutableItem::new(&key_from_seed(9), b"old", 2, None);
+            for p in d.net.peers.iter_mut() {
+                p.muts.insert(*item.target(), (item.value().to_vec(), *item.key(), item.seq(), *item.signature()));
+            }
+            let t = *item.target();
+            d.lookup_and_check_closure(format!("get_mut k={} salt=none seq=5", hex(key_from_seed(9).verifying_key().as_bytes())), &t);
         }
         let v = format!("stored in a mixed network {round}").into_bytes();
         d.api(format!("put_imm v={}", hex(&v)));
